@@ -7,8 +7,16 @@ property on every state; every leaf (quick: a sample) is replayed on the real li
 harness/corosched_replay.cpp, which runs the whole program in one go and must reproduce the history
 event for event, including the content of the ready deque and the coroutine-mode flag at each event.
 
-quick   : nine configurations (<= 3-4 coroutines x <= 2 steps + forced return, each exhaustive in TLC),
-          up to 3000 programs per configuration replayed (those in which order matters first).
+quick   : twelve configurations (<= 3-4 coroutines x <= 2-3 steps + forced return, each exhaustive in TLC),
+          up to 3000 programs per configuration replayed (those in which order matters first).  Among them
+          `accum` (a suspend_point VARIABLE reused through = and <<, awaited / cleared / flushed by its destructor),
+          `pool` (a real one-worker cocls::thread_pool: co_await pool, pool.resume(sp), co_await pool(awaitable),
+          pool.run(async), and what the coroutine does on the worker afterwards - coroutine mode must be on there)
+          and `wide` (a fixed family of long histories of one deque: up to 40 coroutines ready at once after a
+          partial drain, with and without pause() rounds).
+          If the replayer does not compile because the representation of the ready deque changed, it is rebuilt
+          with -DCOROSCHED_NO_PRIVATE (no deque snapshots; the expectation is blanked accordingly, recorded in the
+          evidence as coverage.replayer_build and as an assumption).
 thorough: the same with every program replayed under ASan/UBSan, 3-step variants replayed where the
           graph is small and model-checked only where it is big (up to 3*10^6 states), plus random
           programs of 4-5 coroutines x 5 steps from TLC -simulate, each of them replayed as well.
